@@ -136,6 +136,17 @@ ORACLE: dict[str, tuple[bool, bool, str, bool]] = {
     "scf.if": (False, False, "pure", True),
     "scf.for": (False, False, "pure", True),
     "scf.yield": (True, False, "pure", False),
+    # stream C (written from the meaning of the operations: a load reads, a store writes, an allocation
+    # that is not tied to a value of a removable operation is observable; the structured control-flow
+    # operations do what their regions do)
+    "memref.alloc": (False, False, "alloc", False),
+    "memref.load": (False, False, "read", False),
+    "memref.store": (False, False, "write", False),
+    "scf.while": (False, False, "pure", True),
+    "scf.condition": (True, False, "pure", False),
+    "scf.index_switch": (False, False, "pure", True),
+    "affine.if": (False, False, "pure", True),
+    "affine.yield": (True, False, "pure", False),
 }
 
 
@@ -221,11 +232,11 @@ def build_spec(top: list[dict]) -> Any:
 
 def parse_text(text: str) -> Any:
     from xdsl.context import Context
-    from xdsl.dialects import arith, builtin, cf, func, scf, test
+    from xdsl.dialects import affine, arith, builtin, cf, func, memref, scf, test
     from xdsl.parser import Parser
 
     c = Context()
-    for d in (builtin.Builtin, arith.Arith, func.Func, cf.Cf, scf.Scf, test.Test):
+    for d in (builtin.Builtin, arith.Arith, func.Func, cf.Cf, scf.Scf, test.Test, memref.MemRef, affine.Affine):
         c.load_dialect(d)
     m = Parser(c, text).parse_module()
     m.verify()
@@ -363,6 +374,31 @@ class Snap:
                         if self.observable(j, root):
                             return True
         return False
+
+    def effect_positions(self, i: int) -> tuple[list[tuple[int, int]], list[tuple[int, int]]]:
+        """for an operation with recursive effects: (region index, block index) of the operations directly
+        in reachable blocks of its regions that are observable from outside `i`, and of those that have
+        an effect but only a harmless one (coverage bookkeeping only: which position decides)"""
+        loud: list[tuple[int, int]] = []
+        quiet: list[tuple[int, int]] = []
+        for ri, blist in enumerate(self.ops[i]["regions"]):
+            for b in blist:
+                if not self.reach[b]:
+                    continue
+                for j in self.blocks[b]["ops"]:
+                    pos = (ri, self.blocks[b]["index"])
+                    if self.observable(j, i):
+                        loud.append(pos)
+                    elif self.has_effect(j):
+                        quiet.append(pos)
+        return loud, quiet
+
+    def has_effect(self, j: int) -> bool:
+        _t, _s, eff, rec = oracle_class(self.ops[j]["name"])
+        if eff != "pure":
+            return True
+        return rec and any(self.has_effect(x) for blist in self.ops[j]["regions"] for b in blist
+                           if self.reach[b] for x in self.blocks[b]["ops"])
 
     def must_stay(self, i: int) -> bool:
         t, s, _e, _r = oracle_class(self.ops[i]["name"])
